@@ -154,8 +154,11 @@ impl ClientCfg {
 }
 
 /// string classes of DESIGN §C04
+/// code points at the edges of the UTF-8 / UTF-16 encoding forms (none of them has a case mapping)
+pub const EDGE_CHARS: [char; 14] = ['\u{7F}', '\u{80}', '\u{7FF}', '\u{800}', '\u{D7FF}', '\u{E000}', '\u{FFFD}', '\u{FFFF}', '\u{10000}', '\u{10001}', '\u{FFFFF}', '\u{100000}', '\u{10FFFE}', '\u{10FFFF}'];
+
 pub fn gen_string(s: &mut Src, max_units: usize) -> String {
-    let class = s.below(10);
+    let class = s.below(11);
     let n = match s.below(6) {
         0 => 0,
         1 => s.pick(&[14usize, 15, 16, 17, 31, 32, 33]).min(max_units),
@@ -181,7 +184,15 @@ pub fn gen_string(s: &mut Src, max_units: usize) -> String {
                     ascii(s)
                 }
             }
-            _ => match s.below(5) {
+            10 => {
+                if s.bool() {
+                    s.pick(&EDGE_CHARS)
+                } else {
+                    ascii(s)
+                }
+            }
+            _ => match s.below(6) {
+                5 => s.pick(&EDGE_CHARS),
                 0 => latin(s),
                 1 => cjk(s),
                 2 => emoji(s),
